@@ -78,6 +78,7 @@ class ModelBuilder:
         )
         self._registry: dict[str, Constructor] = {}
 
+        config = self._normalize_containers(config)
         config = self._typedefs_to_constructors(config)
         config = self._narrow_basetype(config)
         self._register_constructors(config)
@@ -146,6 +147,18 @@ class ModelBuilder:
         if not name and callable(obj):
             name = type(obj).__name__
         return name
+
+    @staticmethod
+    def _normalize_containers(config: BuilderConfig) -> BuilderConfig:
+        # NOTE: as documented, typedefs may be a single module or mapping,
+        #   and constructors may be a mapping of names to constructors
+        typedefs: Any = config.typedefs
+        constructors: Any = config.constructors
+        if typedefs and not isinstance(typedefs, list | tuple):
+            config = config.override(typedefs=[typedefs])
+        if isinstance(constructors, Mapping):
+            config = config.override(constructors=list(constructors.values()))
+        return config
 
     def _typedefs_to_constructors(self, config: BuilderConfig) -> BuilderConfig:
         if not config.typedefs:
